@@ -45,6 +45,12 @@ pre-filled keys; SKIP when everything the first sweep asks for is pre-filled, th
 the budget given as float (the form of the library's demos) or NumPy integer - info['m_max'] is the integer;
 Fortran-ordered / non-contiguous starts; ragged and over-sized rank profiles of the start; validation data as
 nested lists; callbacks returning None / 0 (never stop); m_cache_scale left at its documented default 5.
+
+Sparse objectives (opt['sparse'], `_support`): the objective is EXACTLY zero outside one slice (first / last / middle
+mode), one fibre, one entry (corner / seeded position), a sub-box or two values of i_0.  The blocks the algorithm samples
+then have identically zero rows, the row selection sees residuals that are exactly zero on all unselected rows and -
+with dr_min >= 1 - still has to add rows; growth 1/1, 1/2, 2/3 (0/2, 0/0, 3/3 thorough) on d = 2, 3, 4, with a cache
+(budget / failing call / nswp clauses: every index reaches the objective once, info['m'] = distinct indices) and without.
 """
 import inspect
 import numpy as np
@@ -58,7 +64,8 @@ BOUNDS = ('d in {2,3} (4, 5; 6 thorough), n_k in 1..4 (9, 12; 20 thorough), init
           '(gauss / ones / zero cores), growth 0/0, 1/1, 1/2 and 2/2, 2/3, 3/3, 0/1, 0/2, nswp 2 (quick) / 2..3 (thorough), '
           'with and without cache (empty / pre-filled): 132 + 64 configs (quick) / 612 + 169 (thorough), every budget '
           '(int / float / NumPy int), every failing call, every callback sweep, thresholds around every reported value; '
-          'tau {1,1.01,3}, tau0 {1,2}, k0 {1,2}; objective scale 1e-12..1e8 (1e+-30 thorough) and the zero objective; 64 '
+          'tau {1,1.01,3}, tau0 {1,2}, k0 {1,2}; objective scale 1e-12..1e8 (1e+-30 thorough) and the zero objective; 8 kinds of '
+          'exactly sparse objectives (slice / fibre / single entry / sub-box support) x growth 1/1, 1/2, 2/3 (quick: two of three combinations); 64 '
           'argument combinations on 2 shapes')
 
 FUNCS = ('cross.cross', 'cross._func', 'cross._func_eval', 'utils._info_appr')
@@ -86,14 +93,53 @@ class _Oracle:
 
 
 def _problem(n, rho, r0, kind, tseed, yseed, opt=None):
-    """opt (all optional): scale (factor on the objective; 0 -> the zero objective), order ('F' / 'V' layout of the
-    cores of the start); r0 may be an int or a rank profile."""
+    """opt (all optional): scale (factor on the objective; 0 -> the zero objective), sparse (one of SPARSE: the
+    objective is exactly zero outside a small support, see _support), order ('F' / 'V' layout of the cores of the
+    start); r0 may be an int or a rank profile."""
     opt = opt or {}
     T = gen.dense(gen.tt(n, rho, tseed, 'gauss'))
     if 'scale' in opt:
         T = T * float(opt['scale'])
+    if opt.get('sparse'):
+        T = T * _support(n, opt['sparse'], tseed)
     Y0 = gen.tt(n, r0, yseed, kind, order=opt.get('order') or 'C')
     return T, Y0
+
+
+SPARSE = ('slice0', 'slicelast', 'slicemid', 'delta0', 'delta', 'fiber', 'block', 'rows2')
+
+
+def _support(n, how, seed):
+    """0/1 mask of an objective that vanishes EXACTLY outside a small support, so that the sampled unfolding
+    blocks have identically zero rows / columns (the Gaussian values on the support stay generic):
+    slice0 / slicelast / slicemid: one slice i_0 = 0 / i_{d-1} = 0 / i_{d//2} = n-1;  delta0 / delta: one entry (all
+    zeros / seeded position);  fiber: one mode-(d//2) fibre through a seeded position;  block: the box i_k < ceil(n_k/2);
+    rows2: two seeded values of i_0 (one if n_0 < 3)."""
+    d = len(n)
+    g = gen.rng('C06sup', n, how, seed)
+    pos = [int(g.integers(0, k)) for k in n]
+    M = np.zeros(n)
+    if how == 'slice0':
+        M[0] = 1.0
+    elif how == 'slicelast':
+        M[..., 0] = 1.0
+    elif how == 'slicemid':
+        M[(slice(None),) * (d // 2) + (n[d // 2] - 1,)] = 1.0
+    elif how == 'delta0':
+        M[(0,) * d] = 1.0
+    elif how == 'delta':
+        M[tuple(pos)] = 1.0
+    elif how == 'fiber':
+        M[tuple(pos[:d // 2]) + (slice(None),) + tuple(pos[d // 2 + 1:])] = 1.0
+    elif how == 'block':
+        M[tuple(slice(0, -(-k // 2)) for k in n)] = 1.0
+    elif how == 'rows2':
+        M[pos[0]] = 1.0
+        if n[0] >= 3:
+            M[(pos[0] + 1 + int(g.integers(0, n[0] - 1))) % n[0]] = 1.0
+    else:
+        raise ValueError(how)
+    return M
 
 
 def _xkw(opt):
@@ -688,6 +734,22 @@ def cases(tier, seed):
             yield from emit(cfg(n, 8, 2, 1, 1, ce == 'zero', {'cb_else': ce}), 'c')
         for (a, b) in ((0, 0), (1, 1)):
             yield from emit(cfg(n, 2, 2, a, b, True), 'v')
+    # (l) objectives that vanish exactly outside a small support (one slice, one fibre, one entry, a sub-box): the sampled
+    # unfolding blocks have identically zero rows, so the row selection meets residuals that are exactly zero on every
+    # not yet selected row while dr_min >= 1 forces it to add rows - the index sets must stay duplicate-free (with a
+    # cache no index may reach the objective twice, info['m'] counts distinct indices, the budget is not charged twice)
+    dims = [[3, 3], [4, 3, 3], [2, 3, 2], [3, 2, 2, 3]] + ([[5, 4, 3, 4], [2, 2], [4, 1, 3]] if big else [])
+    grows = [(1, 1), (1, 2), (2, 3)] + ([(0, 2), (0, 0), (3, 3)] if big else [])
+    for si, sp in enumerate(SPARSE):
+        for q, n in enumerate(dims):
+            for w, (a, b) in enumerate(grows):
+                k += 1
+                pick = (si + q + w) % 3
+                if big or pick != 2:
+                    which = 'fn' if len(n) > 4 or int(np.prod(n)) > 40 else ('bfn' + ('c' if pick == 0 else ''))
+                    yield from emit(cfg(n, (8, 2)[k % 2], 1 + k % 2, a, b, True, {'sparse': sp}), which, some_parts=2)
+                if (big and pick != 2) or (pick == 1 and q < 2):
+                    yield from emit(cfg(n, (8, 2)[k % 2], 1 + k % 2, a, b, False, {'sparse': sp}), 'fn')
     g = gen.rng('C06v', seed)
     for n in ([3, 3], [2, 3, 2]):
         for bits in range(64):
